@@ -64,6 +64,8 @@ def _job(args):
                 rp._get_new_knowledge()
                 sigs = {s.new_entity.get_name(): ser_sig(s) for s in rp._signatures}
                 nsub = {s.new_entity.get_name(): len(s.subject) for s in rp._signatures}
+                onames = {str(s.new_entity.get_name()): ([str(x.get_name()) for x in (s.subject or [])], [str(x.get_name()) for x in (s.objects or [])])
+                          for s in rp._signatures}
                 per = []
                 for a in atoms:
                     sym = clingo.parse_term(a)
@@ -79,7 +81,7 @@ def _job(args):
                 whole = rp2.parse_model(list(atoms))
                 from cnl2asp.specification.signaturemanager import SignatureManager
                 keyn = {str(sg.get_name()): len(sg.keys) for sg in SignatureManager.signatures}
-                res.append((per, sigs, nsub, whole, list(rp.target_predicates), keyn))
+                res.append((per, sigs, nsub, whole, list(rp.target_predicates), keyn, onames))
         return (r[1], res)
     except Exception as e:  # noqa
         return ('harness-error', '%s: %s' % (type(e).__name__, e))
@@ -106,7 +108,7 @@ def run(tier, seed):
         prog, models = r
         st['programs'] += 1
         rep.case(text)
-        for per, sigs, nsub, whole, targets, keyn in models:
+        for per, sigs, nsub, whole, targets, keyn, onames in models:
             st['answer_sets'] += 1
             seen = {}
             lines = [l for l in whole.split('\n') if l.strip()]
@@ -137,6 +139,15 @@ def run(tier, seed):
                 words = pred.replace('_', ' ')
                 if words.lower() not in sent.lower():
                     rep.violation('the explanation does not name the concept', info)
+                # every concept the relation's sentence was defined with (subject and objects) is named in the explanation
+                subj_names, obj_names = onames.get(pred, ([], []))
+                subj_names = [c_ for c_ in subj_names if c_]
+                if subj_names and not any(c_.lower() in sent.lower() for c_ in subj_names):
+                    rep.violation('the explanation of a %s atom names none of its possible subject concepts %r' % (pred, subj_names), info)
+                for cn in obj_names:
+                    if cn and cn.lower() not in sent.lower():
+                        rep.violation('the explanation of a %s atom does not name the object concept %s' % (pred, cn), info)
+                        break
                 # the subject the sentence starts with must be an individual of the answer set: '<Concept> ... <verb> ...' for an atom of
                 # another predicate requires an atom of <concept> whose arguments are a contiguous part of the explained atom's arguments
                 fw = sent.split()[0].lower() if sent.split() else ''
